@@ -10,7 +10,7 @@ from .tlc import MachineryError, run_tlc
 from .traces import validate
 
 FLOW_FORMATS = ["docx", "odt", "html", "mhtml", "epub", "rtf"]
-MULTI = {"deck": ["pptx", "odp", "odg"], "book": ["xlsx", "ods", "xls"],
+MULTI = {"deck": ["pptx", "odp", "odg", "ppt"], "book": ["xlsx", "ods", "xls"],
          "pages": ["pdf", "txt", "md", "csv", "tsv", "json", "rtf", "epub"]}
 
 def gen_units(ctx, kind, max_units):
@@ -142,6 +142,9 @@ def build_jobs(ctx, rng, two_block_sample=2600):
         for f in MULTI[d["kind"]]:
             if f == "odg":      # a drawing has no speaker notes: same pages without the notes
                 jobs.append({"doc": dict(d, slides=[dict(s, notes=[]) for s in d["slides"]]), "fmt": f})
+            elif f == "ppt":
+                if expressible(d, "ppt"):
+                    jobs.append({"doc": d, "fmt": f})
             elif d["kind"] == "pages" and "gap" in d["pages"]:
                 if f == "epub":     # only an EPUB spine can hold a position that is no chapter
                     jobs.append({"doc": d, "fmt": f})
